@@ -1,19 +1,37 @@
 import GoLevel.Proofs.LocksInv
 import GoLevel.Proofs.LocksW1
-/-! Progress (any configuration, given the invariants `Good`): while a call is pending some fault-free step is enabled, unless
+import GoLevel.Proofs.LocksPInvA
+import GoLevel.Proofs.LocksPInvB
+import GoLevel.Proofs.LocksPInvC
+import GoLevel.Proofs.LocksPInvD
+import GoLevel.Proofs.LocksPInvE
+/-! Progress (`compactionError` as coded, given the invariants `Good`): while a call is pending some fault-free step is enabled, unless
 the only thing everybody waits for is the user's open transaction. -/
 namespace GoLevel.Locks
 
-/-- all invariants (they hold with the three fixes, and the fourth or no `SetReadOnly`) -/
+open CompErr
+
+/-- all invariants (they hold with the three fixes, `compactionError` as coded, and the fourth fix or no
+`SetReadOnly`) -/
 structure Good (s : St) : Prop where
-  r : RInv s
+  r : RInvW s
   a : PInvA s
   b : PInvB s
   c : PInvC s
   d : PInvD s
+  e : PInvE s
   w : W1 s
 
 variable {R : Cfg}
+
+theorem recvs_of (hm : R.m = .asCoded) {e : Eh} (h : e = .noerr ∨ e = .haserr) : recvs R.m e = true := by
+  rw [hm]; exact (recvs_asCoded e).mpr h
+theorem offPer_of (hm : R.m = .asCoded) {e : Eh} (h : e = .hasperr) : offPer R.m e = true := by
+  rw [hm]; exact (offPer_asCoded e).mpr h
+theorem offErr_of (hm : R.m = .asCoded) {e : Eh} (h : e = .hasperr) : offErr R.m e = true := by
+  rw [hm]; exact (offErr_asCoded e).mpr (Or.inr h)
+theorem closes_of (hm : R.m = .asCoded) {e : Eh} (h : e = .hasperr) : closes R.m e = true := by
+  rw [hm]; exact (closes_asCoded e).mpr (Or.inr (Or.inr h))
 
 /-- a thread at a program counter that never blocks has a fault-free step -/
 macro "nb_step" hi:ident : tactic => `(tactic| first
@@ -30,89 +48,123 @@ macro "nb_step" hi:ident : tactic => `(tactic| first
   | exact ⟨_, Step.clBody _ _ $hi⟩)
 
 /-- the `select` after a compaction's storage action always has an enabled arm -/
-theorem setErr_step (s : St) (g : Good s) (b : Bool) (w : Option Nat) (ok c : Bool)
+theorem setErr_step (hm : R.m = .asCoded) (s : St) (g : Good s) (b : Bool) (w : Option Nat) (ok c : Bool)
     (hb : s.bg b = .run w (.setErr ok c)) : ∃ t, Step R false s t := by
   cases he : s.eh with
-  | noerr => exact ⟨_, Step.bgSetErr s b w ok c hb (Or.inl he)⟩
-  | haserr => exact ⟨_, Step.bgSetErr s b w ok c hb (Or.inr he)⟩
+  | noerr => exact ⟨_, Step.bgSetErr s b w ok c hb (recvs_of hm (Or.inl he))⟩
+  | haserr => exact ⟨_, Step.bgSetErr s b w ok c hb (recvs_of hm (Or.inr he))⟩
   | hasperr =>
     cases ok with
-    | true => exact ⟨_, Step.bgSetErrPer s b w c hb he⟩
-    | false => exact ⟨_, Step.bgExit s b w _ hb (Or.inr ⟨he, c, rfl⟩)⟩
+    | true => exact ⟨_, Step.bgSetErrPer s b w c hb (offPer_of hm he)⟩
+    | false => exact ⟨_, Step.bgExit s b w _ hb (Or.inr ⟨offPer_of hm he, c, Or.inl rfl⟩)⟩
+  | closing =>
+    have hc := g.a.2.2.2.1 he
+    exact ⟨_, Step.bgExit s b w _ hb (Or.inl ⟨hc, by simp, by simp⟩)⟩
   | exited =>
-    have hc := g.a.2.2 he
+    have hc := g.a.2.2.1 he
+    exact ⟨_, Step.bgExit s b w _ hb (Or.inl ⟨hc, by simp, by simp⟩)⟩
+
+/-- … also with a corruption error in hand -/
+theorem setErrC_step (hm : R.m = .asCoded) (s : St) (g : Good s) (b : Bool) (w : Option Nat) (c : Bool)
+    (hb : s.bg b = .run w (.setErrC c)) : ∃ t, Step R false s t := by
+  cases he : s.eh with
+  | noerr => exact ⟨_, Step.bgSetErrCorrupt s b w c hb (recvs_of hm (Or.inl he))⟩
+  | haserr => exact ⟨_, Step.bgSetErrCorrupt s b w c hb (recvs_of hm (Or.inr he))⟩
+  | hasperr => exact ⟨_, Step.bgExit s b w _ hb (Or.inr ⟨offPer_of hm he, c, Or.inr rfl⟩)⟩
+  | closing =>
+    have hc := g.a.2.2.2.1 he
+    exact ⟨_, Step.bgExit s b w _ hb (Or.inl ⟨hc, by simp, by simp⟩)⟩
+  | exited =>
+    have hc := g.a.2.2.1 he
     exact ⟨_, Step.bgExit s b w _ hb (Or.inl ⟨hc, by simp, by simp⟩)⟩
 
 /-- whoever holds `compCommitLk` can move -/
-theorem clk_step (s : St) (g : Good s) (hc : s.clk = true) : ∃ t, Step R false s t := by
+theorem clk_step (hm : R.m = .asCoded) (s : St) (g : Good s) (hc : s.clk = true) : ∃ t, Step R false s t := by
   have h := g.r.clkI
   rw [hc] at h; simp only [b2n_true] at h
   by_cases h1 : 0 < tot clkW s.ws
   · obtain ⟨i, p, hi, hp⟩ := exists_of_tot_pos clkW s.ws h1
     cases p <;> simp [clkW] at hp <;> nb_step hi
   · by_cases h2 : 0 < bgClk s.mc
-    · cases hm : s.mc with
+    · cases hmc : s.mc with
       | run w ph =>
-        have hb : s.bg false = .run w ph := by simp [St.bg, hm]
-        rw [hm] at h2
+        have hb : s.bg false = .run w ph := by simp [St.bg, hmc]
+        rw [hmc] at h2
         cases ph with
         | commit => exact ⟨_, Step.bgCommitOk s false w hb⟩
-        | setErr ok c => exact setErr_step s g false w ok c hb
+        | setErr ok c => exact setErr_step hm s g false w ok c hb
+        | setErrC c => exact setErrC_step hm s g false w c hb
         | backoff c => exact ⟨_, Step.bgBackoff s false w c hb⟩
         | _ => simp [bphClk] at h2
-      | _ => simp [hm] at h2
+      | _ => simp [hmc] at h2
     · have h3 : 0 < bgClk s.tc := by omega
-      cases hm : s.tc with
+      cases hmc : s.tc with
       | run w ph =>
-        have hb : s.bg true = .run w ph := by simp [St.bg, hm]
-        rw [hm] at h3
+        have hb : s.bg true = .run w ph := by simp [St.bg, hmc]
+        rw [hmc] at h3
         cases ph with
         | commit => exact ⟨_, Step.bgCommitOk s true w hb⟩
-        | setErr ok c => exact setErr_step s g true w ok c hb
+        | setErr ok c => exact setErr_step hm s g true w ok c hb
+        | setErrC c => exact setErrC_step hm s g true w c hb
         | backoff c => exact ⟨_, Step.bgBackoff s true w c hb⟩
         | _ => simp [bphClk] at h3
-      | _ => simp [hm] at h3
+      | _ => simp [hmc] at h3
 
 /-- a compaction in progress can move -/
-theorem bg_run_step (s : St) (g : Good s) (b : Bool) (w : Option Nat) (ph : BPh) (hb : s.bg b = .run w ph) :
+theorem bg_run_step (hm : R.m = .asCoded) (s : St) (g : Good s) (b : Bool) (w : Option Nat) (ph : BPh)
+    (hb : s.bg b = .run w ph) :
     ∃ t, Step R false s t := by
   cases ph with
   | work => exact ⟨_, Step.bgWorkOk s b w hb⟩
-  | setErr ok c => exact setErr_step s g b w ok c hb
+  | setErr ok c => exact setErr_step hm s g b w ok c hb
+  | setErrC c => exact setErrC_step hm s g b w c hb
   | backoff c => exact ⟨_, Step.bgBackoff s b w c hb⟩
   | lockClk =>
     cases hc : s.clk with
     | false => exact ⟨_, Step.bgLockClk s b w hb hc⟩
-    | true => exact clk_step s g hc
+    | true => exact clk_step hm s g hc
   | commit => exact ⟨_, Step.bgCommitOk s b w hb⟩
   | ackW => exact ⟨_, Step.bgAck s b w hb⟩
 
-theorem alt_he (s : St) (h : Alt s) : s.eh = .haserr ∨ s.eh = .hasperr ∨ s.closed = true := by
+theorem alt_he (hm : R.m = .asCoded) (s : St) (h : Alt s) : offErr R.m s.eh = true ∨ s.closed = true := by
   rcases h with h | h
-  · exact Or.inr (Or.inr h)
-  · exact Or.inr (Or.inl h)
+  · exact Or.inr h
+  · exact Or.inl (offErr_of hm h)
 
 theorem bg_exited_alt (s : St) (g : Good s) (b : Bool) (hb : s.bg b = .exited) : Alt s := by
   cases b with
   | false => exact g.a.1 (by simpa [St.bg] using hb)
   | true => exact g.a.2.1 (by simpa [St.bg] using hb)
 
+theorem bg_parked_alt (s : St) (g : Good s) (b : Bool) (hb : s.bg b = .parked) : Alt s := by
+  cases b with
+  | false => exact absurd (by simpa [St.bg] using hb) g.a.2.2.2.2.2.2
+  | true => exact g.a.2.2.2.2.2.1 (g.a.2.2.2.2.1 (by simpa [St.bg] using hb))
+
 /-- a thread sending a compaction command can move, or the goroutine it talks to can -/
-theorem cwSend_step (s : St) (g : Good s) (i : Nat) (b : Bool) (site : Site) (lg : Bool)
+theorem cwSend_step (hm : R.m = .asCoded) (s : St) (g : Good s) (i : Nat) (b : Bool) (site : Site) (lg : Bool)
     (hi : s.ws[i]? = some (.cwSend b site lg)) : ∃ t, Step R false s t := by
   cases hb : s.bg b with
-  | idle => exact ⟨_, Step.cwSendGo s i b site lg hi hb⟩
-  | run w ph => exact bg_run_step s g b w ph hb
-  | exited => exact ⟨_, Step.cwSendErr s i b site lg hi (alt_he s (bg_exited_alt s g b hb))⟩
+  | idle =>
+    cases hro : (b && R.roParks && s.ro) with
+    | false => exact ⟨_, Step.cwSendGo s i b site lg hi hb hro⟩
+    | true =>
+      simp only [Bool.and_eq_true] at hro
+      obtain ⟨⟨h1, h2⟩, h3⟩ := hro
+      subst h1
+      exact ⟨_, Step.cwSendRO s i site lg hi (by simpa [St.bg] using hb) h2 h3⟩
+  | run w ph => exact bg_run_step hm s g b w ph hb
+  | exited => exact ⟨_, Step.cwSendErr s i b site lg hi (alt_he hm s (bg_exited_alt s g b hb))⟩
+  | parked => exact ⟨_, Step.cwSendErr s i b site lg hi (alt_he hm s (bg_parked_alt s g b hb))⟩
 
-theorem cwAck_step (s : St) (g : Good s) (i : Nat) (b : Bool) (site : Site) (lg : Bool)
+theorem cwAck_step (hm : R.m = .asCoded) (s : St) (g : Good s) (i : Nat) (b : Bool) (site : Site) (lg : Bool)
     (hi : s.ws[i]? = some (.cwAck b site lg)) : ∃ t, Step R false s t := by
   rcases g.w i b site lg hi with ⟨ph, hb⟩ | ha
-  · exact bg_run_step s g b (some i) ph hb
-  · exact ⟨_, Step.cwAckErr s i b site lg hi (alt_he s ha)⟩
+  · exact bg_run_step hm s g b (some i) ph hb
+  · exact ⟨_, Step.cwAckErr s i b site lg hi (alt_he hm s ha)⟩
 
 /-- whoever holds `tr.lk` can move -/
-theorem trlk_step (s : St) (g : Good s) (hl : s.trlk = true) : ∃ t, Step R false s t := by
+theorem trlk_step (hm : R.m = .asCoded) (s : St) (g : Good s) (hl : s.trlk = true) : ∃ t, Step R false s t := by
   have h := g.r.trlkI
   rw [hl] at h; simp only [b2n_true] at h
   obtain ⟨i, p, hi, hp⟩ := exists_of_tot_pos trlkW s.ws (by omega)
@@ -120,39 +172,41 @@ theorem trlk_step (s : St) (g : Good s) (hl : s.trlk = true) : ∃ t, Step R fal
   | cmLockClk lg =>
     cases hc : s.clk with
     | false => exact ⟨_, Step.cmLockClk s i lg hi hc⟩
-    | true => exact clk_step s g hc
-  | cwSend b site lg => exact cwSend_step s g i b site lg hi
-  | cwAck b site lg => exact cwAck_step s g i b site lg hi
+    | true => exact clk_step hm s g hc
+  | cwSend b site lg => exact cwSend_step hm s g i b site lg hi
+  | cwAck b site lg => exact cwAck_step hm s g i b site lg hi
   | _ => first | (simp [trlkW] at hp; done) | nb_step hi
 
-theorem srSet_step (s : St) (g : Good s) (i : Nat) (hi : s.ws[i]? = some .srSet) : ∃ t, Step R false s t := by
+theorem srSet_step (hm : R.m = .asCoded) (s : St) (g : Good s) (i : Nat) (hi : s.ws[i]? = some .srSet) :
+    ∃ t, Step R false s t := by
   cases he : s.eh with
-  | noerr => exact ⟨_, Step.srSend s i hi (Or.inl he)⟩
-  | haserr => exact ⟨_, Step.srSend s i hi (Or.inr he)⟩
-  | hasperr => exact ⟨_, Step.srPerErr s i hi he⟩
-  | exited => exact ⟨_, Step.srClosed s i hi (g.a.2.2 he)⟩
+  | noerr => exact ⟨_, Step.srSend s i hi (recvs_of hm (Or.inl he))⟩
+  | haserr => exact ⟨_, Step.srSend s i hi (recvs_of hm (Or.inr he))⟩
+  | hasperr => exact ⟨_, Step.srPerErr s i hi (offPer_of hm he)⟩
+  | closing => exact ⟨_, Step.srClosed s i hi (g.a.2.2.2.1 he)⟩
+  | exited => exact ⟨_, Step.srClosed s i hi (g.a.2.2.1 he)⟩
 
 theorem b2n_pos (b : Bool) (h : 0 < b2n b) : b = true := by cases b <;> simp [b2n] at h ⊢
 
-theorem lockTr_or (s : St) (g : Good s) (hstep : s.trlk = false → ∃ t, Step R false s t) :
+theorem lockTr_or (hm : R.m = .asCoded) (s : St) (g : Good s) (hstep : s.trlk = false → ∃ t, Step R false s t) :
     ∃ t, Step R false s t := by
   cases hl : s.trlk with
   | false => exact hstep hl
-  | true => exact trlk_step s g hl
+  | true => exact trlk_step hm s g hl
 
 /-- whoever holds the token can move — or it is the user's transaction, `compactionError` in its
 persistent-error loop, or `Close` -/
-theorem tok_step (s : St) (g : Good s) (ht : s.tok = true) :
+theorem tok_step (hm : R.m = .asCoded) (s : St) (g : Good s) (ht : s.tok = true) :
     (∃ t, Step R false s t) ∨ (s.trOpen = true ∧ s.trUser = true) ∨
-    (s.ehTok = true ∧ s.eh = .hasperr) ∨ s.closeTok = true := by
+    (s.ehTok = true ∧ (s.eh = .hasperr ∨ s.eh = .closing)) ∨ s.closeTok = true := by
   have h := g.r.tokI
   rw [ht] at h; simp only [b2n_true] at h
   by_cases h1 : 0 < tot tokW s.ws
   · left
     obtain ⟨i, p, hi, hp⟩ := exists_of_tot_pos tokW s.ws h1
     cases p with
-    | cwSend b site lg => exact cwSend_step s g i b site lg hi
-    | cwAck b site lg => exact cwAck_step s g i b site lg hi
+    | cwSend b site lg => exact cwSend_step hm s g i b site lg hi
+    | cwAck b site lg => exact cwAck_step hm s g i b site lg hi
     | _ => first | (simp [tokW] at hp; done) | nb_step hi
   · by_cases h2 : 0 < b2n s.trOpen
     · have hto := b2n_pos _ h2
@@ -166,37 +220,38 @@ theorem tok_step (s : St) (g : Good s) (ht : s.tok = true) :
         simp only [Bool.not_false, Bool.and_self, b2n_true] at hd
         obtain ⟨i, p, hi, hp⟩ := exists_of_tot_pos lgW s.ws (by omega)
         cases p with
-        | cmLockTr lg => exact lockTr_or s g (fun hl => ⟨_, Step.cmLockTr s i lg hi hl⟩)
-        | dcLockTr lg => exact lockTr_or s g (fun hl => ⟨_, Step.dcLockTr s i lg hi hl⟩)
+        | cmLockTr lg => exact lockTr_or hm s g (fun hl => ⟨_, Step.cmLockTr s i lg hi hl⟩)
+        | dcLockTr lg => exact lockTr_or hm s g (fun hl => ⟨_, Step.dcLockTr s i lg hi hl⟩)
         | cmLockClk lg =>
           cases hc : s.clk with
           | false => exact ⟨_, Step.cmLockClk s i lg hi hc⟩
-          | true => exact clk_step s g hc
-        | cwSend b site lg => exact cwSend_step s g i b site lg hi
-        | cwAck b site lg => exact cwAck_step s g i b site lg hi
+          | true => exact clk_step hm s g hc
+        | cwSend b site lg => exact cwSend_step hm s g i b site lg hi
+        | cwAck b site lg => exact cwAck_step hm s g i b site lg hi
         | _ => first | (simp [lgW] at hp; done) | nb_step hi
     · by_cases h3 : 0 < b2n s.ehTok
-      · have hb := g.b
-        unfold PInvB at hb
-        by_cases hper : s.eh = .hasperr
+      · have hb := g.b.1
+        by_cases hper : s.eh = .hasperr ∨ s.eh = .closing
         · exact Or.inr (Or.inr (Or.inl ⟨b2n_pos _ h3, hper⟩))
         · left
           have : perW s.eh = 0 := by cases he : s.eh <;> simp_all
           obtain ⟨i, p, hi, hp⟩ := exists_of_tot_pos srW s.ws (by omega)
           cases p <;> simp [srW] at hp
-          exact srSet_step s g i hi
+          exact srSet_step hm s g i hi
       · exact Or.inr (Or.inr (Or.inr (b2n_pos _ (by omega))))
 
 /-- the `select` on `writeLockC`: some arm is enabled, or the token holder can move -/
-theorem sel_step (s : St) (g : Good s) (i : Nat) (p q : Pc) (hi : s.ws[i]? = some p) (hq : selNext p = some q) :
+theorem sel_step (hm : R.m = .asCoded) (s : St) (g : Good s) (i : Nat) (p q : Pc) (hi : s.ws[i]? = some p)
+    (hq : selNext p = some q) :
     (∃ t, Step R false s t) ∨ (s.trOpen = true ∧ s.trUser = true) := by
   cases ht : s.tok with
   | false => exact Or.inl ⟨_, Step.selTok s i p q hi hq ht⟩
   | true =>
-    rcases tok_step s g ht with h | h | ⟨_, h⟩ | h
+    rcases tok_step hm s g ht with h | h | ⟨_, h | h⟩ | h
     · exact Or.inl h
     · exact Or.inr h
-    · exact Or.inl ⟨_, Step.selPerErr s i p q hi hq h⟩
+    · exact Or.inl ⟨_, Step.selPerErr s i p q hi hq (offPer_of hm h)⟩
+    · exact Or.inl ⟨_, Step.selClosed s i p q hi hq (g.a.2.2.2.1 h)⟩
     · have := g.c.2.1
       rw [h] at this
       simp only [b2n_true] at this
@@ -210,34 +265,37 @@ theorem close_closed (s : St) (g : Good s) (i : Nat) (p : Pc) (hi : s.ws[i]? = s
 
 /-- **progress**: while a call is pending, a fault-free step is enabled, unless everybody waits for the
 user to commit or discard the open transaction -/
-theorem progress (s : St) (g : Good s) (i : Nat) (p : Pc) (hi : s.ws[i]? = some p) (hp : pending p = true) :
+theorem progress (hm : R.m = .asCoded) (s : St) (g : Good s) (i : Nat) (p : Pc) (hi : s.ws[i]? = some p)
+    (hp : pending p = true) :
     (∃ t, Step R false s t) ∨ (s.trOpen = true ∧ s.trUser = true) := by
   cases p with
   | idle => simp [pending] at hp
   | ret ok => simp [pending] at hp
-  | putSel => exact sel_step s g i _ _ hi rfl
-  | otxSel lg => exact sel_step s g i _ _ hi rfl
-  | crSel => exact sel_step s g i _ _ hi rfl
-  | srSel => exact sel_step s g i _ _ hi rfl
-  | cwSend b site lg => exact Or.inl (cwSend_step s g i b site lg hi)
-  | cwAck b site lg => exact Or.inl (cwAck_step s g i b site lg hi)
-  | cmLockTr lg => exact Or.inl (lockTr_or s g (fun hl => ⟨_, Step.cmLockTr s i lg hi hl⟩))
-  | dcLockTr lg => exact Or.inl (lockTr_or s g (fun hl => ⟨_, Step.dcLockTr s i lg hi hl⟩))
-  | clLockTr => exact Or.inl (lockTr_or s g (fun hl => ⟨_, Step.clLockTr s i hi hl⟩))
+  | retE e => simp [pending] at hp
+  | putSel => exact sel_step hm s g i _ _ hi rfl
+  | otxSel lg => exact sel_step hm s g i _ _ hi rfl
+  | crSel => exact sel_step hm s g i _ _ hi rfl
+  | srSel => exact sel_step hm s g i _ _ hi rfl
+  | cwSend b site lg => exact Or.inl (cwSend_step hm s g i b site lg hi)
+  | cwAck b site lg => exact Or.inl (cwAck_step hm s g i b site lg hi)
+  | cmLockTr lg => exact Or.inl (lockTr_or hm s g (fun hl => ⟨_, Step.cmLockTr s i lg hi hl⟩))
+  | dcLockTr lg => exact Or.inl (lockTr_or hm s g (fun hl => ⟨_, Step.dcLockTr s i lg hi hl⟩))
+  | clLockTr => exact Or.inl (lockTr_or hm s g (fun hl => ⟨_, Step.clLockTr s i hi hl⟩))
   | cmLockClk lg =>
     cases hc : s.clk with
     | false => exact Or.inl ⟨_, Step.cmLockClk s i lg hi hc⟩
-    | true => exact Or.inl (clk_step s g hc)
-  | srSet => exact Or.inl (srSet_step s g i hi)
+    | true => exact Or.inl (clk_step hm s g hc)
+  | srSet => exact Or.inl (srSet_step hm s g i hi)
   | clAcq =>
     have hcl := close_closed s g i _ hi (by simp [clAllW])
     cases ht : s.tok with
     | false => exact Or.inl ⟨_, Step.clAcq s i hi ht⟩
     | true =>
-      rcases tok_step s g ht with h | h | ⟨_, h⟩ | h
+      rcases tok_step hm s g ht with h | h | ⟨_, h | h⟩ | h
       · exact Or.inl h
       · exact Or.inr h
-      · exact Or.inl ⟨_, Step.ehExit s (by rw [h]; simp) hcl⟩
+      · exact Or.inl ⟨_, Step.ehClose s (closes_of hm h) hcl⟩
+      · exact Or.inl ⟨_, Step.ehTake s h ht⟩
       · exfalso
         have h1 := le_tot clPreW s.ws i _ hi
         have h2 := g.c.2.2
@@ -247,14 +305,16 @@ theorem progress (s : St) (g : Good s) (i : Nat) (p : Pc) (hi : s.ws[i]? = some 
   | clWait =>
     have hcl := close_closed s g i _ hi (by simp [clAllW])
     left
-    cases hm : s.mc with
-    | idle => exact ⟨_, Step.bgExitIdle s false (by simp [St.bg, hm]) hcl⟩
-    | run w ph => exact bg_run_step s g false w ph (by simp [St.bg, hm])
+    cases hmc : s.mc with
+    | idle => exact ⟨_, Step.bgExitIdle s false (by simp [St.bg, hmc]) hcl⟩
+    | run w ph => exact bg_run_step hm s g false w ph (by simp [St.bg, hmc])
+    | parked => exact absurd hmc g.a.2.2.2.2.2.2
     | exited =>
       cases htc : s.tc with
       | idle => exact ⟨_, Step.bgExitIdle s true (by simp [St.bg, htc]) hcl⟩
-      | run w ph => exact bg_run_step s g true w ph (by simp [St.bg, htc])
-      | exited => exact ⟨_, Step.clWait s i hi hm htc⟩
+      | run w ph => exact bg_run_step hm s g true w ph (by simp [St.bg, htc])
+      | parked => exact ⟨_, Step.bgExitParked s htc hcl⟩
+      | exited => exact ⟨_, Step.clWait s i hi hmc htc⟩
   | _ => left; nb_step hi
 
 end GoLevel.Locks
